@@ -673,3 +673,96 @@ func (e *Exec) fromJSON(j interface{}, t types.Type, cur Value) (Value, string) 
 	}
 	return nil, "unsupported json target " + t.String()
 }
+
+func init() {
+	// strings.Builder: the unsafe parts only
+	reg("(*strings.Builder).copyCheck", func(e *Exec, a []Value) Value { return nil })
+	reg("(*strings.Builder).String", func(e *Exec, a []Value) Value {
+		p := a[0].(PtrVal)
+		if p.Root == nil {
+			panic(goPanic{"nil pointer dereference"})
+		}
+		b := p.loadRef().(*StructVal)
+		for _, f := range b.Fields {
+			if s, ok := f.(SliceVal); ok {
+				return StrVal{B: append([]*Term{}, e.bytesOf(s)...)}
+			}
+		}
+		return StrVal{}
+	})
+	// sort.Slice / sort.SliceStable: insertion sort through the less closure (stable)
+	sortSlice := func(e *Exec, a []Value) Value {
+		s, ok := a[0].(IfaceVal).V.(SliceVal)
+		if !ok || s.Len < 2 {
+			return nil
+		}
+		less := a[1].(*ClosureVal)
+		arr := s.Arr.V.(*ArrayVal)
+		lt := func(i, j int) bool {
+			r := e.Call(less.Fn, []Value{e.tt.BV(64, uint64(i)), e.tt.BV(64, uint64(j))}, less.Free).(*Term)
+			return e.branch(r)
+		}
+		for i := 1; i < s.Len; i++ {
+			for j := i; j > 0 && lt(j, j-1); j-- {
+				arr.Elems[s.Off+j], arr.Elems[s.Off+j-1] = arr.Elems[s.Off+j-1], arr.Elems[s.Off+j]
+			}
+		}
+		return nil
+	}
+	reg("sort.Slice", sortSlice)
+	reg("sort.SliceStable", sortSlice)
+	reg("fmt.Sprint", func(e *Exec, a []Value) Value {
+		var out []*Term
+		for _, v := range e.variadic(a[0]) {
+			out = append(out, e.sprintf("%v", []Value{v}).B...)
+		}
+		return StrVal{B: out}
+	})
+	reg("strings.EqualFold", func(e *Exec, a []Value) Value {
+		x, okx := concreteString(a[0].(StrVal))
+		y, oky := concreteString(a[1].(StrVal))
+		if !okx || !oky {
+			panic(abort{"strings.EqualFold on symbolic text"})
+		}
+		return e.tt.Bool(strings.EqualFold(x, y))
+	})
+	reg("strings.Repeat", func(e *Exec, a []Value) Value {
+		n := e.concretize(a[1].(*Term), 1<<16)
+		if n < 0 {
+			panic(goPanic{"strings: negative Repeat count"})
+		}
+		var out []*Term
+		for i := 0; i < n; i++ {
+			out = append(out, a[0].(StrVal).B...)
+		}
+		return StrVal{B: out}
+	})
+	reg("bytes.HasPrefix", func(e *Exec, a []Value) Value {
+		s, p := e.bytesOf(a[0]), e.bytesOf(a[1])
+		if len(s) < len(p) {
+			return e.tt.Bool(false)
+		}
+		return e.strEq(s[:len(p)], p)
+	})
+	reg("bytes.HasSuffix", func(e *Exec, a []Value) Value {
+		s, p := e.bytesOf(a[0]), e.bytesOf(a[1])
+		if len(s) < len(p) {
+			return e.tt.Bool(false)
+		}
+		return e.strEq(s[len(s)-len(p):], p)
+	})
+	reg("strings.HasPrefix", func(e *Exec, a []Value) Value {
+		s, p := e.bytesOf(a[0]), e.bytesOf(a[1])
+		if len(s) < len(p) {
+			return e.tt.Bool(false)
+		}
+		return e.strEq(s[:len(p)], p)
+	})
+	reg("strings.HasSuffix", func(e *Exec, a []Value) Value {
+		s, p := e.bytesOf(a[0]), e.bytesOf(a[1])
+		if len(s) < len(p) {
+			return e.tt.Bool(false)
+		}
+		return e.strEq(s[len(s)-len(p):], p)
+	})
+}
